@@ -1,5 +1,5 @@
-"""F21 (C03, recorded finding): targeting the history child of a PARALLEL state from inside that state
-re-enters active regions without exiting them (entry actions run twice, no exit in between)."""
+"""F21 (C03, repaired by the same fix as F34): targeting the history child of a PARALLEL state from inside that state
+re-entered active regions without exiting them (entry actions ran twice, no exit in between)."""
 from xstate_statemachine import create_machine, MachineLogic, SyncInterpreter
 log = []
 cfg = {"id": "m", "type": "parallel", "states": {
